@@ -151,7 +151,7 @@ impl Prop for C15 {
         "C15"
     }
     fn rule(&self) -> String {
-        "cases = (Rust integer type in {u8,i8,u16,i16,u32,i32,u64,i64,usize,isize} or generic Value::Int/UInt) x (column type in {TINY,SHORT,YEAR,INT24,LONG,LONGLONG} x {signed,unsigned}) (optionally with other column flag bits such as ZEROFILL or BINARY set, which must not matter) x a set of values: ALL values for 8- and 16-bit types (enumerated, exhaustive), all 2^k, 2^k+-1, -(2^k)+-1 and range bounds for wider types (enumerated), plus random wide values. Each value goes through the public encoder to_mysql_bin; oracle: Ok => bytes decoded at the column's wire width and signedness equal the value as a mathematical integer; it must be accepted when the column's range contains the whole fixed-width Rust type (for usize/isize: the value); otherwise any refusal is fine. A sample additionally travels through a real binary resultset. Non-trivial = the value set contains a value the column cannot represent, or a value outside i8's range.".into()
+        "cases = (Rust integer type in {u8,i8,u16,i16,u32,i32,u64,i64,usize,isize} or generic Value::Int/UInt) x (column type in {TINY,SHORT,YEAR,INT24,LONG,LONGLONG} x {signed,unsigned}) (optionally with other column flag bits such as ZEROFILL or BINARY set, which must not matter) x a set of values: ALL values for 8- and 16-bit types (enumerated, exhaustive), all 2^k, 2^k+-1, -(2^k)+-1 and range bounds for wider types (enumerated), plus random wide values. Each value goes through the public encoder to_mysql_bin; oracle: Ok => bytes decoded at the column's wire width and signedness equal the value as a mathematical integer; it must be accepted when the column's range contains the whole fixed-width Rust type (for usize/isize: the value); otherwise any refusal is fine. A sample additionally travels through a real binary resultset, as the second cell of a two-column row next to a column of the opposite signedness, written both column-by-column and as write_col + write_row. Non-trivial = the value set contains a value the column cannot represent, or a value outside i8's range.".into()
     }
     fn assumptions(&self) -> Vec<String> {
         vec!["a deliberate assert! panic of the encoder counts as a refusal (nothing is sent)".into()]
@@ -238,37 +238,63 @@ impl Prop for C15 {
             return ex;
         }
         if case.wire {
-            // the accepted values of this set, as one binary resultset through run_on
+            // Every value of the set once more through a real binary resultset, as the second cell of
+            // a two-column row whose first column has the same width and the opposite signedness,
+            // written in the unusual but legal order write_col(first) + write_row(rest): accepted =>
+            // the client decodes exactly the value; refusals are fine.
             use crate::conv::*;
             use crate::shim::*;
-            let good: Vec<i128> = values
-                .iter()
-                .copied()
-                .filter(|v| base_of(case.rust_type, *v).map(|b| matches!(single_write(&Val::plain(b), &col).0, Ok(Ok(_)))).unwrap_or(false))
-                .take(40)
-                .collect();
-            if !good.is_empty() {
-                ex.class("wire-sample");
-                let rows: Vec<RowProg> = good.iter().map(|v| RowProg { cells: vec![Val::plain(base_of(case.rust_type, *v).unwrap())], form: RowForm::Cols }).collect();
-                let conv = Conversation::new(
+            ex.class("wire-sample");
+            let other = ColSpec { table: "t".into(), name: "a".into(), coltype: case.coltype, flags: col.flags ^ FLAG_UNSIGNED };
+            let mut n_wire = 0u64;
+            for (k, &v) in values.iter().take(24).enumerate() {
+                let base = match base_of(case.rust_type, v) {
+                    Some(b) => b,
+                    None => continue,
+                };
+                n_wire += 1;
+                let form = if k % 2 == 0 { RowForm::Mixed(1) } else { RowForm::Cols };
+                let first = if other.unsigned() { Val::plain(Base::U8(1)) } else { Val::plain(Base::I8(-1)) };
+                let first = if matches!(single_write(&first, &other).0, Ok(Ok(_))) { first } else { Val { base: Base::U8(0), wrap: Wrap::None } };
+                let rows = vec![RowProg { cells: vec![first, Val::plain(base.clone())], form }];
+                let mut conv = Conversation::new(
                     vec![Cmd::Prepare { text: Blob::text("p") }, Cmd::Execute { id: 1, params: vec![], send_types: false, flags: 0, iterations: 1 }],
                     vec![
                         Action::Prepare(PrepProg::Reply { id: 1, params: vec![], cols: vec![] }),
-                        Action::Result(Program { steps: vec![Step::Set { cols: vec![col.clone()], rows, end: SetEnd::Finish }] }),
+                        Action::Result(Program { steps: vec![Step::Set { cols: vec![other.clone(), col.clone()], rows, end: SetEnd::Finish }] }),
                     ],
                 );
+                conv.forget_on_refusal = true;
                 let o = run_with(&conv, None, false);
+                let refused = o.calls.iter().any(|c| !c.ok) || o.result.is_panic();
+                if refused {
+                    // must not have been refused if the model says it must be accepted
+                    if let BinExpect::Accept(_) = bin_expect(&base, col.coltype, col.unsigned()) {
+                        ex.fail("c15-wire-wrongly-refused", format!("{} {} must be accepted by column {} but the row was refused on the wire ({})", TYPE_NAMES[case.rust_type], v, col.coltype, o.result.brief()));
+                        return ex;
+                    }
+                    continue;
+                }
                 let kinds: Vec<ReplyKind> = conv.cmds.iter().map(|sc| sc.cmd.reply_kind()).collect();
                 let d = decode_output(&o.out, &kinds);
                 if !o.result.is_ok() || d.problem.is_some() {
-                    ex.fail("c15-wire", format!("binary resultset of accepted integers failed: {} / {:?}", o.result.brief(), d.problem));
+                    ex.fail("c15-wire", format!("binary resultset with an accepted integer failed: {} / {:?}", o.result.brief(), d.problem));
                     return ex;
                 }
-                let exps = expectations(&conv);
-                if let Err(m) = check_reply(&exps[1], &d.replies[1], true) {
-                    ex.fail("c15-wire-altered", m);
+                let got = match d.replies.get(1).map(|r| &r.units[..]) {
+                    Some([Unit::Set { rows: Rows::Bin(r), .. }]) if r.len() == 1 && r[0].len() == 2 => match &r[0][1] {
+                        BinVal::Int(i) => Some(*i as i128),
+                        BinVal::UInt(u) => Some(*u as i128),
+                        _ => None,
+                    },
+                    _ => None,
+                };
+                if got != Some(v) {
+                    ex.fail("c15-wire-altered", format!("{} {} written to column type {}{} through a RowWriter ({:?}) was accepted but the client decodes {:?}", TYPE_NAMES[case.rust_type], v, if col.unsigned() { "UNSIGNED " } else { "" }, col.coltype, form, got));
+                    return ex;
                 }
             }
+            ex.count("values_sent_through_a_resultset", n_wire);
         }
         ex
     }
